@@ -55,7 +55,7 @@ def run_one(pid, name, patch, repo):
     try:
         if applies:
             r = subprocess.run([os.path.join(VERIF, 'check'), pid, '--tier', 'quick', '--repo', d], cwd=VERIF, stdout=subprocess.PIPE, stderr=subprocess.STDOUT, text=True)
-            keys = [k for _, k in re.findall(r'rule=(\S+) key=(.+?) at ', r.stdout)]
+            keys = [k for _, k in re.findall(r'^    rule=(\S+) key=(.+?) at ', r.stdout, re.M)]
             res['fired'] = keys[:6]
             if 'VIOLATION property=' in r.stdout and r.returncode == 1:
                 res['status'] = 'detected'
